@@ -8,6 +8,7 @@
 package c13
 
 import (
+	"bytes"
 	"crypto/sha256"
 	"encoding/binary"
 	"encoding/hex"
@@ -41,6 +42,9 @@ type Variant struct {
 // GatedDapps are synthetic dapps registered the way an external plugin registers itself
 // (drivers.Register(cfg, name, create, enableHeight)) with an enable height above 0: below it the executor runs their
 // transactions with the none driver, from it on with the real driver.
+// PanicPayload: gated-dapp transactions whose payload starts with it panic inside Exec (nil-map write).
+var PanicPayload = []byte("PANIC")
+
 var GatedDapps = map[string]int64{"c13gate2": 2, "c13gate3": 3}
 
 type gatedApp struct {
@@ -52,6 +56,12 @@ func (g *gatedApp) GetDriverName() string { return g.name }
 
 // Exec is state dependent (a per-dapp counter) and writes a per-transaction key and a log.
 func (g *gatedApp) Exec(tx *types.Transaction, index int) (*types.Receipt, error) {
+	if bytes.HasPrefix(tx.Payload, PanicPayload) {
+		// a contract bug: the executor recovers it and packs the transaction with an error receipt, which must be the
+		// same bytes on every execution
+		var m map[string]int
+		m[g.name] = index
+	}
 	ckey := []byte("mavl-" + g.name + "-count")
 	var count types.Int64
 	if v, err := g.GetStateDB().Get(ckey); err == nil {
